@@ -18,9 +18,16 @@ ASSUMPTIONS = ["the injection is added after the (dealiased) convection term, so
 
 
 def translate(ctx):
-    """Gen/SpectralGen.v: gen_injection2d / gen_injection3d, the forcing arrays of the Kolmogorov nonlinear functions re-translated from the
+    """Gen/InjectionGen.v (and the layout functions of Gen/SpectralGen.v it is tied through): gen_injection2d / gen_injection3d, the forcing arrays of the Kolmogorov nonlinear functions re-translated from the
     source (tied to Nonlin/Injection.v by Tie/InjectionTie.v and the theorem C12_code_injection_is_model_injection)"""
-    tr_spectral.run()
+    errors = []
+    for name, fn in (("spectral", tr_spectral.run), ("injection", tr_spectral.run_injection)):
+        try:
+            fn()
+        except Exception as e:
+            errors.append(f"{name}: {type(e).__name__}: {e}")
+    if errors:
+        raise RuntimeError("; ".join(errors))
 
 
 def _ex():
